@@ -1,4 +1,368 @@
 /- helper lemmas for C19 -/
 import TinyHttpModel.RespSpec
 namespace TH
+open Spec
+
+/-! ### the model's protected-name test is the specification's -/
+
+theorem isProtected_eq (h : Header) : isProtected h = Spec.isProtectedName h := by
+  simp [isProtected, Spec.isProtectedName, Extracted.protectedHeaders, Bool.or_assoc]
+
+/-- what survives the first stage of the policy. -/
+def kept (h : Header) : Bool := !Spec.isProtectedName h && !h.is b!"Content-Length"
+
+/-- second stage of the policy: collapse the Content-Type headers of an already filtered list. -/
+def polCT (K : List Header) : List Header :=
+  match lastContentType K with
+  | some v => keepFirstCT v K
+  | none => K
+
+theorem policy_eq (hs : List Header) : Spec.policy hs = polCT (hs.filter kept) := rfl
+
+/-! ### `lastContentType` -/
+
+theorem lastCT_none_iff (K : List Header) :
+    lastContentType K = none ↔ K.any (·.is b!"Content-Type") = false := by
+  induction K with
+  | nil => simp [lastContentType]
+  | cons k K ih =>
+    simp only [lastContentType, List.any_cons, Bool.or_eq_false_iff]
+    cases hl : lastContentType K with
+    | some v =>
+      have : ¬ (K.any (·.is b!"Content-Type") = false) := fun h => by
+        rw [← ih] at h; simp [hl] at h
+      simp [this]
+    | none =>
+      have := ih.mp hl
+      cases hk : k.is b!"Content-Type" <;> simp [this]
+
+theorem lastCT_snoc (K : List Header) (h : Header) :
+    lastContentType (K ++ [h]) =
+      if h.is b!"Content-Type" then some h.value else lastContentType K := by
+  induction K with
+  | nil => simp [lastContentType]
+  | cons k K ih =>
+    simp only [List.cons_append, lastContentType, ih]
+    cases hh : h.is b!"Content-Type" <;> simp
+
+/-! ### `keepFirstCT` and `replaceContentType` -/
+
+theorem keepFirstCT_snoc_other (v : Bytes) (K : List Header) (h : Header)
+    (hh : h.is b!"Content-Type" = false) :
+    keepFirstCT v (K ++ [h]) = keepFirstCT v K ++ [h] := by
+  induction K with
+  | nil => simp [keepFirstCT, hh]
+  | cons k K ih =>
+    simp only [List.cons_append, keepFirstCT, ih]
+    cases hk : k.is b!"Content-Type" <;> simp [List.filter_append, hh]
+
+theorem keepFirstCT_snoc_ct_some (v : Bytes) (K : List Header) (h : Header)
+    (hh : h.is b!"Content-Type" = true) (hK : K.any (·.is b!"Content-Type") = true) :
+    keepFirstCT v (K ++ [h]) = keepFirstCT v K := by
+  induction K with
+  | nil => simp at hK
+  | cons k K ih =>
+    simp only [List.cons_append, keepFirstCT]
+    cases hk : k.is b!"Content-Type" with
+    | true => simp [List.filter_append, hh]
+    | false =>
+      have : K.any (·.is b!"Content-Type") = true := by simpa [hk] using hK
+      simp [ih this]
+
+theorem keepFirstCT_snoc_ct_none (K : List Header) (h : Header)
+    (hh : h.is b!"Content-Type" = true) (hK : K.any (·.is b!"Content-Type") = false) :
+    keepFirstCT h.value (K ++ [h]) = K ++ [h] := by
+  induction K with
+  | nil => simp [keepFirstCT, hh]
+  | cons k K ih =>
+    have hk : k.is b!"Content-Type" = false := by
+      cases hk : k.is b!"Content-Type" <;> simp_all
+    have hK' : K.any (·.is b!"Content-Type") = false := by
+      simpa [hk] using hK
+    simp [keepFirstCT, hk, ih hK']
+
+theorem replaceCT_none (v : Bytes) (K : List Header)
+    (hK : K.any (·.is b!"Content-Type") = false) : replaceContentType v K = none := by
+  induction K with
+  | nil => rfl
+  | cons k K ih =>
+    have hk : k.is b!"Content-Type" = false := by
+      cases hk : k.is b!"Content-Type" <;> simp_all
+    have hK' : K.any (·.is b!"Content-Type") = false := by
+      simpa [hk] using hK
+    simp [replaceContentType, hk, ih hK']
+
+theorem replaceCT_keepFirstCT (v w : Bytes) (K : List Header)
+    (hK : K.any (·.is b!"Content-Type") = true) :
+    replaceContentType v (keepFirstCT w K) = some (keepFirstCT v K) := by
+  induction K with
+  | nil => simp at hK
+  | cons k K ih =>
+    cases hk : k.is b!"Content-Type" with
+    | true =>
+      have : Header.is { name := k.name, value := w } b!"Content-Type" = true := hk
+      simp [keepFirstCT, hk, replaceContentType, this]
+    | false =>
+      have hK' : K.any (·.is b!"Content-Type") = true := by simpa [hk] using hK
+      simp [keepFirstCT, hk, replaceContentType, ih hK']
+
+/-! ### one more supplied header -/
+
+theorem polCT_snoc_other (K : List Header) (h : Header)
+    (hh : h.is b!"Content-Type" = false) : polCT (K ++ [h]) = polCT K ++ [h] := by
+  unfold polCT
+  rw [lastCT_snoc, hh]
+  cases hl : lastContentType K with
+  | none => simp
+  | some v => simp [keepFirstCT_snoc_other v K h hh]
+
+theorem polCT_snoc_ct (K : List Header) (h : Header) (hh : h.is b!"Content-Type" = true) :
+    polCT (K ++ [h]) =
+      match replaceContentType h.value (polCT K) with
+      | some l => l
+      | none => polCT K ++ [h] := by
+  unfold polCT
+  rw [lastCT_snoc, hh]
+  cases hl : lastContentType K with
+  | none =>
+    have hK := (lastCT_none_iff K).mp hl
+    simp [replaceCT_none h.value K hK, keepFirstCT_snoc_ct_none K h hh hK]
+  | some v =>
+    have hK : K.any (·.is b!"Content-Type") = true := by
+      cases hK : K.any (·.is b!"Content-Type") with
+      | true => rfl
+      | false => rw [← lastCT_none_iff, hl] at hK; cases hK
+    simp [replaceCT_keepFirstCT h.value v K hK, keepFirstCT_snoc_ct_some h.value K h hh hK]
+
+/-- `add_header` on a response whose list is the policy of `hs` gives the policy of `hs ++ [h]`. -/
+theorem addHeader_headers (r : Resp) (hs : List Header) (h : Header)
+    (hr : r.headers = Spec.policy hs) :
+    (addHeader r h).headers = Spec.policy (hs ++ [h]) := by
+  rw [policy_eq, List.filter_append]
+  unfold addHeader
+  rw [isProtected_eq]
+  cases hp : Spec.isProtectedName h with
+  | true => simp [kept, hp, hr, policy_eq]
+  | false =>
+    cases hc : h.is b!"Content-Length" with
+    | true =>
+      simp only [Bool.false_eq_true, if_false, if_true]
+      cases hu : usizeFromStr h.value <;> simp [kept, hp, hc, hr, policy_eq]
+    | false =>
+      have hk : [h].filter kept = [h] := by simp [kept, hp, hc]
+      rw [hk]
+      cases ht : h.is b!"Content-Type" with
+      | false => simp [polCT_snoc_other _ h ht, hr, policy_eq]
+      | true =>
+        rw [polCT_snoc_ct _ h ht]
+        simp only [Bool.false_eq_true, if_false, if_true, hr, policy_eq]
+        cases replaceContentType h.value (polCT (List.filter kept hs)) <;> simp
+
+theorem foldl_addHeader_headers (more hs : List Header) (r : Resp)
+    (hr : r.headers = Spec.policy hs) :
+    (more.foldl addHeader r).headers = Spec.policy (hs ++ more) := by
+  induction more generalizing hs r with
+  | nil => simpa using hr
+  | cons h more ih =>
+    have := ih (hs ++ [h]) (addHeader r h) (addHeader_headers r hs h hr)
+    simpa using this
+
+/-! ### membership, counting -/
+
+/-- every stored header carries the name of a kept supplied header. -/
+theorem keepFirstCT_names (P : Bytes → Prop) (v : Bytes) (K : List Header)
+    (hK : ∀ k ∈ K, P k.name) : ∀ h ∈ keepFirstCT v K, P h.name := by
+  induction K with
+  | nil => simp [keepFirstCT]
+  | cons k K ih =>
+    intro h hm
+    simp only [keepFirstCT] at hm
+    split at hm
+    · rcases List.mem_cons.mp hm with rfl | hm
+      · exact hK k (List.mem_cons_self ..)
+      · exact hK h (List.mem_cons_of_mem _ (List.mem_filter.mp hm).1)
+    · rcases List.mem_cons.mp hm with rfl | hm
+      · exact hK h (List.mem_cons_self ..)
+      · exact ih (fun k hk => hK k (List.mem_cons_of_mem _ hk)) h hm
+
+theorem polCT_names (P : Bytes → Prop) (K : List Header)
+    (hK : ∀ k ∈ K, P k.name) : ∀ h ∈ polCT K, P h.name := by
+  unfold polCT
+  split
+  · exact keepFirstCT_names P _ K hK
+  · exact hK
+
+theorem policy_kept (hs : List Header) : ∀ h ∈ Spec.policy hs, kept h = true := by
+  rw [policy_eq]
+  have := polCT_names (fun n => kept ⟨n, []⟩ = true) (hs.filter kept)
+    (fun k hk => (List.mem_filter.mp hk).2)
+  exact this
+
+theorem kept_iff (h : Header) :
+    kept h = true ↔ Spec.isProtectedName h = false ∧ h.is b!"Content-Length" = false := by
+  simp [kept]
+
+theorem policy_not_framing (hs : List Header) :
+    ∀ h ∈ Spec.policy hs, Spec.isAutoFraming h = false := by
+  intro h hm
+  have := (kept_iff h).mp (policy_kept hs h hm)
+  simp only [Spec.isProtectedName, Bool.or_eq_false_iff] at this
+  simp [Spec.isAutoFraming, this.1.1.2, this.2]
+
+theorem countName_append (a b : List Header) (n : Bytes) :
+    Spec.countName (a ++ b) n = Spec.countName a n + Spec.countName b n := by
+  simp [Spec.countName, List.filter_append]
+
+theorem countName_cons (a : Header) (b : List Header) (n : Bytes) :
+    Spec.countName (a :: b) n = (if a.is n then 1 else 0) + Spec.countName b n := by
+  simp only [Spec.countName, List.filter_cons]
+  split <;> simp <;> omega
+
+theorem countName_nil (n : Bytes) : Spec.countName [] n = 0 := rfl
+
+theorem countName_zero_of_any (hs : List Header) (n : Bytes)
+    (h : hs.any (·.is n) = false) : Spec.countName hs n = 0 := by
+  simp only [Spec.countName, List.length_eq_zero_iff, List.filter_eq_nil_iff]
+  intro a ha
+  have := List.any_eq_false.mp h a ha
+  simpa using this
+
+theorem countName_keepFirstCT (v : Bytes) (K : List Header) :
+    Spec.countName (keepFirstCT v K) b!"Content-Type" ≤ 1 := by
+  induction K with
+  | nil => simp [keepFirstCT, Spec.countName]
+  | cons k K ih =>
+    simp only [keepFirstCT]
+    cases hk : k.is b!"Content-Type" with
+    | true =>
+      have h1 : Header.is { name := k.name, value := v } b!"Content-Type" = true := hk
+      have h2 : Spec.countName (K.filter (fun x => !x.is b!"Content-Type")) b!"Content-Type" = 0 := by
+        apply countName_zero_of_any
+        simp [List.any_filter]
+      simp [countName_cons, h1, h2]
+    | false => simpa [countName_cons, hk] using ih
+
+theorem countName_policy_ct (hs : List Header) :
+    Spec.countName (Spec.policy hs) b!"Content-Type" ≤ 1 := by
+  rw [policy_eq]
+  unfold polCT
+  split
+  · exact countName_keepFirstCT _ _
+  · next hl =>
+    rw [countName_zero_of_any _ _ ((lastCT_none_iff _).mp hl)]
+    omega
+
+/-! ### declared length -/
+
+theorem foldl_addHeader_dataLength (hs : List Header) (r : Resp) :
+    (hs.foldl addHeader r).dataLength = Spec.declaredLen r.dataLength hs := by
+  induction hs generalizing r with
+  | nil => rfl
+  | cons h hs ih =>
+    rw [List.foldl_cons, ih, Spec.declaredLen]
+    unfold addHeader
+    rw [isProtected_eq]
+    cases hp : Spec.isProtectedName h with
+    | true => simp
+    | false =>
+      cases hc : h.is b!"Content-Length" with
+      | true => cases hu : usizeFromStr h.value <;> simp
+      | false =>
+        cases ht : h.is b!"Content-Type" with
+        | false => simp
+        | true => cases replaceContentType h.value r.headers <;> simp
+
+/-! ### the automatic headers -/
+
+theorem is_mk (n v m : Bytes) : Header.is ⟨n, v⟩ m = eqIgnoreCase n m := rfl
+
+theorem date_is_date (v : Bytes) : Header.is ⟨b!"Date", v⟩ b!"Date" = true := by
+  simp only [is_mk]; decide
+theorem date_is_server (v : Bytes) : Header.is ⟨b!"Date", v⟩ b!"Server" = false := by
+  simp only [is_mk]; decide
+theorem server_is_server (v : Bytes) : Header.is ⟨b!"Server", v⟩ b!"Server" = true := by
+  simp only [is_mk]; decide
+theorem server_is_date (v : Bytes) : Header.is ⟨b!"Server", v⟩ b!"Date" = false := by
+  simp only [is_mk]; decide
+theorem conn_is_conn (v : Bytes) : Header.is ⟨b!"Connection", v⟩ b!"Connection" = true := by
+  simp only [is_mk]; decide
+theorem conn_is_date (v : Bytes) : Header.is ⟨b!"Connection", v⟩ b!"Date" = false := by
+  simp only [is_mk]; decide
+theorem conn_is_server (v : Bytes) : Header.is ⟨b!"Connection", v⟩ b!"Server" = false := by
+  simp only [is_mk]; decide
+theorem upg_is_upg (v : Bytes) : Header.is ⟨b!"Upgrade", v⟩ b!"Upgrade" = true := by
+  simp only [is_mk]; decide
+theorem upg_is_date (v : Bytes) : Header.is ⟨b!"Upgrade", v⟩ b!"Date" = false := by
+  simp only [is_mk]; decide
+theorem upg_is_server (v : Bytes) : Header.is ⟨b!"Upgrade", v⟩ b!"Server" = false := by
+  simp only [is_mk]; decide
+theorem te_is_date (v : Bytes) : Header.is ⟨b!"Transfer-Encoding", v⟩ b!"Date" = false := by
+  simp only [is_mk]; decide
+theorem te_is_server (v : Bytes) : Header.is ⟨b!"Transfer-Encoding", v⟩ b!"Server" = false := by
+  simp only [is_mk]; decide
+theorem cl_is_date (v : Bytes) : Header.is ⟨b!"Content-Length", v⟩ b!"Date" = false := by
+  simp only [is_mk]; decide
+theorem cl_is_server (v : Bytes) : Header.is ⟨b!"Content-Length", v⟩ b!"Server" = false := by
+  simp only [is_mk]; decide
+theorem te_framing (v : Bytes) : Spec.isAutoFraming ⟨b!"Transfer-Encoding", v⟩ = true := by
+  simp only [Spec.isAutoFraming, is_mk]; decide
+theorem cl_framing (v : Bytes) : Spec.isAutoFraming ⟨b!"Content-Length", v⟩ = true := by
+  simp only [Spec.isAutoFraming, is_mk]; decide
+
+/-- the headers `raw_print` puts in front of the stored ones. -/
+def autoLead (hs : List Header) (date : Bytes) (up : Option Bytes) : List Header :=
+  (match up with
+    | some p => [⟨b!"Connection", b!"upgrade"⟩, ⟨b!"Upgrade", p⟩]
+    | none => [])
+  ++ (if hs.any (·.is b!"Server") then [] else [⟨b!"Server", Extracted.serverName⟩])
+  ++ (if hs.any (·.is b!"Date") then [] else [⟨b!"Date", date⟩])
+
+theorem insertAuto_eq (hs : List Header) (date : Bytes) (up : Option Bytes) :
+    insertAuto hs date up = autoLead hs date up ++ hs := by
+  cases up <;> cases hD : hs.any (·.is b!"Date") <;> cases hS : hs.any (·.is b!"Server") <;>
+    simp [insertAuto, autoLead, hD, hS, date_is_server]
+
+theorem autoLead_names (hs : List Header) (date : Bytes) (up : Option Bytes) :
+    ∀ h ∈ autoLead hs date up,
+      h.is b!"Date" ∨ h.is b!"Server" ∨ h.is b!"Connection" ∨ h.is b!"Upgrade" := by
+  intro h hm
+  simp only [autoLead, List.mem_append] at hm
+  rcases hm with (hm | hm) | hm
+  · cases up with
+    | none => simp at hm
+    | some p =>
+      simp only [List.mem_cons, List.not_mem_nil, or_false] at hm
+      rcases hm with rfl | rfl
+      · simp [conn_is_conn]
+      · simp [upg_is_upg]
+  · split at hm
+    · simp at hm
+    · rw [List.mem_singleton] at hm; subst hm; simp [server_is_server]
+  · split at hm
+    · simp at hm
+    · rw [List.mem_singleton] at hm; subst hm; simp [date_is_date]
+
+/-! ### the framing header and the oracle's stripping of it -/
+
+theorem framingHeader_cases (te : Option Coding) (l : Option Nat) :
+    framingHeader te l = [] ∨ ∃ f, framingHeader te l = [f] ∧ Spec.isAutoFraming f = true ∧
+      f.is b!"Date" = false ∧ f.is b!"Server" = false := by
+  unfold framingHeader
+  split
+  · exact .inr ⟨_, rfl, te_framing _, te_is_date _, te_is_server _⟩
+  · exact .inr ⟨_, rfl, cl_framing _, cl_is_date _, cl_is_server _⟩
+  · exact .inl rfl
+
+theorem strip_none (pol : List Header) (hnf : ∀ h ∈ pol, Spec.isAutoFraming h = false) :
+    (match pol.reverse with
+      | f :: rr => if Spec.isAutoFraming f = true then rr.reverse else pol
+      | [] => pol) = pol := by
+  split
+  · next f rr he =>
+    have : f ∈ pol := by
+      have : f ∈ pol.reverse := by rw [he]; exact List.mem_cons_self ..
+      simpa using this
+    simp [hnf f this]
+  · rfl
+
 end TH
